@@ -445,12 +445,24 @@ func (vc *VC) memNamesOf(t types.Type, out map[string]bool) {
 	}
 }
 
+// tyofAssume states the dynamic type tag of the object a struct pointer refers to. Pointers of
+// different struct types can therefore never be equal (Go's type safety; no unsafe in the subset).
+func (vc *VC) tyofAssume(p Term, elem types.Type) Term {
+	if _, ok := elem.Underlying().(*types.Struct); !ok {
+		return True
+	}
+	// identical underlying struct types share a tag (pointer conversions between them are legal)
+	id := IntLit(int64(vc.eng.typeID(elem.Underlying())))
+	return Implies(Not(Eq(p, NilP)), Eq(App(SInt, "tyof", Root(p), PathOf(p)), id))
+}
+
 // allocObj returns a fresh root pointer and zero-initialises the object's rows.
 func (vc *VC) allocObj(st *State, t types.Type, hint string) Term {
 	id := vc.q.Define("obj$"+hint, st.alloc)
 	st.alloc = Add(id, IntLit(1))
 	p := MkPtr(id, Term{"PNil", SPath})
 	vc.zeroRows(st, id, t)
+	vc.q.Assert(vc.tyofAssume(p, t))
 	return p
 }
 
@@ -575,7 +587,9 @@ func (vc *VC) wfAssume(st *State, v Term, t types.Type, depth int) Term {
 			Le(IntLit(0), Root(b)), Lt(Root(b), st.alloc),
 			Implies(Eq(b, NilP), And(Eq(c, IntLit(0)), Eq(o, IntLit(0)))),
 			Implies(Eq(Root(b), IntLit(0)), Eq(b, NilP)))
-	case *types.Pointer, *types.Map, *types.Chan:
+	case *types.Pointer:
+		return And(Le(IntLit(0), Root(v)), Lt(Root(v), st.alloc), Implies(Eq(Root(v), IntLit(0)), Eq(v, NilP)), vc.tyofAssume(v, u.Elem()))
+	case *types.Map, *types.Chan:
 		return And(Le(IntLit(0), Root(v)), Lt(Root(v), st.alloc), Implies(Eq(Root(v), IntLit(0)), Eq(v, NilP)))
 	case *types.Signature:
 		return True
